@@ -23,18 +23,18 @@ type Ty struct {
 	Params  []*Ty
 	Results []*Ty
 	PBase   string // base of generated parameter names (default "a")
-	PNames  int // 0 named (a0, a1, ...), 1 unnamed, 2 blank (_), 3 generator-like names (f, err, out, this)
+	PNames  int    // 0 named (a0, a1, ...), 1 unnamed, 2 blank (_), 3 generator-like names (f, err, out, this)
 }
 
-func Basic(n string) *Ty          { return &Ty{K: "basic", Name: n} }
-func Named(pkg, n string) *Ty     { return &Ty{K: "named", Name: n, Pkg: pkg} }
-func Ptr(e *Ty) *Ty               { return &Ty{K: "ptr", Elem: e} }
-func Slice(e *Ty) *Ty             { return &Ty{K: "slice", Elem: e} }
-func Array(n int, e *Ty) *Ty      { return &Ty{K: "array", N: n, Elem: e} }
-func Map(k, v *Ty) *Ty            { return &Ty{K: "map", Key: k, Elem: v} }
-func Func(ps, rs []*Ty) *Ty       { return &Ty{K: "func", Params: ps, Results: rs} }
-func EmptyStruct() *Ty            { return &Ty{K: "emptystruct"} }
-func Chan(dir string, e *Ty) *Ty  { return &Ty{K: "chan", Name: dir, Elem: e} }
+func Basic(n string) *Ty         { return &Ty{K: "basic", Name: n} }
+func Named(pkg, n string) *Ty    { return &Ty{K: "named", Name: n, Pkg: pkg} }
+func Ptr(e *Ty) *Ty              { return &Ty{K: "ptr", Elem: e} }
+func Slice(e *Ty) *Ty            { return &Ty{K: "slice", Elem: e} }
+func Array(n int, e *Ty) *Ty     { return &Ty{K: "array", N: n, Elem: e} }
+func Map(k, v *Ty) *Ty           { return &Ty{K: "map", Key: k, Elem: v} }
+func Func(ps, rs []*Ty) *Ty      { return &Ty{K: "func", Params: ps, Results: rs} }
+func EmptyStruct() *Ty           { return &Ty{K: "emptystruct"} }
+func Chan(dir string, e *Ty) *Ty { return &Ty{K: "chan", Name: dir, Elem: e} }
 
 var Error = Basic("error")
 
@@ -140,11 +140,11 @@ type Field struct {
 
 // Decl is a named type of package p (or q).
 type Decl struct {
-	Name   string
-	Struct bool
-	Fields []Field
-	Under  *Ty // for non-struct named types
-	File   int
+	Name     string
+	Struct   bool
+	Fields   []Field
+	Under    *Ty // for non-struct named types
+	File     int
 	building bool
 }
 
@@ -152,7 +152,7 @@ type Decl struct {
 type World struct {
 	Decls     []*Decl
 	Calls     []*Call
-	QCalls    []*Call  // calls in package q (uses types of p through import)
+	QCalls    []*Call // calls in package q (uses types of p through import)
 	QDecls    []*Decl
 	HasQ      bool
 	HasExt    bool
